@@ -20,6 +20,8 @@ ASSUMPTIONS = [
     "floating primitives (+ - * / **, numpy log/sqrt/sin...) are shared with the library: the property is about order",
 ]
 NT_FLOOR = 0.3
+# coverage-guided complement (sv/fuzz.py): strategy -> number of cases; a small one in the quick tier keeps it exercised
+FUZZ = {"quick": {"valid": 1500}, "thorough": {"valid": 40000, "illformed": 20000}}
 
 
 @st.composite
